@@ -162,6 +162,9 @@ static void run_message(const int * units, int k, int style) {
             char info[300];
             int code = tc_pop(&T, info, sizeof info);
             if (code == SCPI_ERROR_EXECUTION_ERROR) continue;
+            #if !USE_MEMORY_ALLOCATION_FREE
+            if (code == SCPI_ERROR_UNDEFINED_HEADER && seen < nund && info[0] == 0) { seen++; continue; }     /* static info heap exhausted by the earlier texts of this message: the error is queued without text */
+#endif
             if (code != SCPI_ERROR_UNDEFINED_HEADER || seen >= nund || !strstr(info, und[seen])) { mc_viol("c02/undefined-header-text", "message [%s]: queued error %d is %d with text [%s], expected -113 carrying [%s]", mc_e(msg, ml), i, code, mc_es(info), seen < nund ? und[seen] : "(none)"); return; }
             seen++;
         }
